@@ -894,6 +894,24 @@ class ObjectDomain(EffectDomain):
         d = dotted(call.func) or ""
         f_ = call.func
         handled_elsewhere = self.track(d) or d in self.results or d in self.raises or d in self.ctors
+        # getattr(<instance>, "name", default) / hasattr(<instance>, "name"): decided by the instance's class and state
+        if d in ("getattr", "hasattr") and not call.keywords and len(call.args) == (3 if d == "getattr" else 2):
+            got = interp.eval_list(list(call.args), st, fr)
+            if got and all(r.kind == "exc" or (is_inst(r.value[0]) and isinstance(r.value[1], tuple) and r.value[1][:1] == ("const",) and isinstance(r.value[1][1], str)) for r in got):
+                out = []
+                for r in got:
+                    if r.kind == "exc":
+                        out.append(r)
+                        continue
+                    inst, name = r.value[0], r.value[1][1]
+                    found = self._inst_attr(interp, inst, name, r.state, fr)
+                    if d == "hasattr":
+                        out.append(val(TRUE if found is not None else FALSE, r.state))
+                    elif found is None:
+                        out.append(val(r.value[2], r.state))
+                    else:
+                        out.extend(found)
+                return out
         # setattr(x, "name", v) / getattr(x, "name") with a constant name are the attribute store / load
         if d in ("setattr", "getattr") and not call.keywords and len(call.args) == (3 if d == "setattr" else 2) \
                 and isinstance(call.args[0], (ast.Name, ast.Attribute)) and attr_chain(call.args[0]):
